@@ -6,7 +6,11 @@ from typing import Optional, Union
 
 # websocket modules
 from ._abnf import ABNF, STATUS_NORMAL, continuous_frame, frame_buffer
-from ._exceptions import WebSocketProtocolException, WebSocketConnectionClosedException
+from ._exceptions import (
+    WebSocketConnectionClosedException,
+    WebSocketPayloadException,
+    WebSocketProtocolException,
+)
 from ._handshake import SUPPORTED_REDIRECT_STATUSES, handshake
 from ._http import connect, proxy_info
 from ._logging import debug, error, trace, isEnabledForError, isEnabledForTrace
@@ -392,7 +396,12 @@ class WebSocket:
         if opcode == ABNF.OPCODE_TEXT:
             data_received: Union[bytes, str] = data
             if isinstance(data_received, bytes):
-                return data_received.decode("utf-8")
+                try:
+                    return data_received.decode("utf-8")
+                except UnicodeDecodeError:
+                    raise WebSocketPayloadException(
+                        f"cannot decode: {repr(data_received)}"
+                    )
             elif isinstance(data_received, str):
                 return data_received
         elif opcode == ABNF.OPCODE_BINARY:
